@@ -17,7 +17,7 @@
 From Coq Require Import List ZArith Bool Lia.
 From LMBase Require Import Res.
 From LMDense Require Import DenseModel C19.
-From LMFootprint Require Import FpModel FpProofs FpTight FpHistory FpHistoryProofs.
+From LMFootprint Require Import FpModel FpProofs FpTight FpHistory FpHistoryProofs FpComplete.
 Import ListNotations.
 Open Scope Z_scope.
 
@@ -323,11 +323,19 @@ Qed.
 (* ---------- the executable checker used on the implementation's parameters is sound ---------- *)
 
 Theorem check_C06_sound : forall ext balign l,
-  all_ok ext balign l = true -> Forall (InBounds ext) l /\ Forall (Aligned balign) l.
+  check_C06 ext balign l = true -> Forall (InBounds ext) l /\ Forall (Aligned balign) l.
 Proof.
-  intros ext balign l H. pose proof (all_ok_sound ext balign l H) as S.
+  intros ext balign l H. unfold check_C06 in H. pose proof (all_ok_sound ext balign l H) as S.
   split; [exact (safe_in_bounds _ _ _ S) | exact (safe_aligned _ _ _ S)].
 Qed.
+
+(* ... and complete on the model: along ANY history of safe API calls the checker accepts the footprint
+   of every kernel the wrappers let run (the property theorem in executable form; PARTIAL as above) *)
+Theorem C06_model_passes_partial : forall K pstF pstU ops s,
+  layout_ok 4 K pstF -> layout_ok 1 K pstU ->
+  hwf s -> Forall hop_wf ops ->
+  Forall (fun e => check_C06 (ev_ext e) (ev_al e) (ev_accs e) = true) (htrace K pstF pstU s ops).
+Proof. intros K pstF pstU ops s. exact (htrace_passes K pstF pstU ops s). Qed.
 
 (* ---------- summary: the first-pass obligation of DESIGN 7.1 in one statement ----------
    PARTIAL with respect to property C06 (see the head of this file): it speaks of the
@@ -406,4 +414,8 @@ Check fp_range_guard_necessary : forall p accs,
   (wrap_score_f32_avx2 false p = Ok (Entered accs) -> exists a, In a accs /\ ~ InBounds (ext_score 4 p) a) /\
   (wrap_score_u8_avx2 false p = Ok (Entered accs) -> exists a, In a accs /\ ~ InBounds (ext_score 1 p) a).
 Check check_C06_sound : forall ext balign l,
-  all_ok ext balign l = true -> Forall (InBounds ext) l /\ Forall (Aligned balign) l.
+  check_C06 ext balign l = true -> Forall (InBounds ext) l /\ Forall (Aligned balign) l.
+Check C06_model_passes_partial : forall K pstF pstU ops s,
+  layout_ok 4 K pstF -> layout_ok 1 K pstU ->
+  hwf s -> Forall hop_wf ops ->
+  Forall (fun e => check_C06 (ev_ext e) (ev_al e) (ev_accs e) = true) (htrace K pstF pstU s ops).
